@@ -941,6 +941,14 @@ func _recover(n *node) {
 func _panic(n *node) {
 	value := genValue(n.child[1])
 
+	if n.anc.kind == deferStmt {
+		// The panic is raised when the deferred call is run.
+		genBuiltinDeferWrapper(n, []func(*frame) reflect.Value{value}, nil, func(args []reflect.Value) []reflect.Value {
+			panic(args[0])
+		})
+		return
+	}
+
 	n.exec = func(f *frame) bltn {
 		panic(value(f))
 	}
